@@ -778,11 +778,19 @@ fn collect_entries_from_map<'a>(
     reference_location: Location,
     dup_policy: DuplicateKeyPolicy,
 ) -> Result<Vec<PendingEntry<'a>>, Error> {
-    let Some(Ev::MapStart { .. }) = ev.next()? else {
+    let Some(Ev::MapStart {
+        location: map_location,
+        ..
+    }) = ev.next()?
+    else {
         return Err(Error::MergeValueNotMapOrSeqOfMaps {
             location: ev.last_location(),
         });
     };
+    // A mapping written in place (`<<: {a: 1}`) is referenced where it stands: its values are
+    // used where they are written, no anchor is involved. Only a mapping reached through an
+    // alias has a use site of its own (the alias token).
+    let written_in_place = map_location == reference_location;
 
     // Own entries in document order; an entry overridden under `LastWins` leaves `None` behind.
     let mut fields: Vec<Option<PendingEntry<'a>>> = Vec::new();
@@ -815,6 +823,11 @@ fn collect_entries_from_map<'a>(
                     let value = capture_node(ev)?;
                     let fingerprint = key.fingerprint().into_owned();
                     let location = key.location();
+                    let reference_location = if written_in_place {
+                        value.location()
+                    } else {
+                        reference_location
+                    };
                     let entry = Some(PendingEntry {
                         key,
                         value,
